@@ -21,6 +21,12 @@ type c17Root struct {
 	a string //nolint:unused
 }
 
+// c17RootEmb: the same fields, promoted from an embedded struct
+type c17RootEmb struct {
+	c17Root
+	Own int
+}
+
 type c17Case struct {
 	Part string `json:"part"` // history | path
 	// history
@@ -95,6 +101,10 @@ func c17New(root string) (*vuego.Stack, *c17Model) {
 		m.root = map[string]string{"F": "fieldF", "g": "fieldG"}
 		m.scopes = []map[string]string{{"a": "rootA"}}
 		return vuego.NewStackWithData(map[string]any{"a": "rootA"}, map[string]string{"F": "fieldF", "g": "fieldG"}), m
+	case "embedded":
+		m.root = map[string]string{"F": "fieldF", "g": "fieldG", "G": "fieldG"}
+		m.scopes = []map[string]string{{"a": "rootA"}}
+		return vuego.NewStackWithData(map[string]any{"a": "rootA"}, c17RootEmb{c17Root: c17Root{F: "fieldF", G: "fieldG"}, Own: 1}), m
 	case "struct", "ptr":
 		r := c17Root{F: "fieldF", G: "fieldG"}
 		m.root = map[string]string{"F": "fieldF", "g": "fieldG", "G": "fieldG"}
@@ -285,7 +295,14 @@ type c17Path struct {
 }
 
 var c17Leaves = []string{"str", "mapss", "ints", "array", "nilptr", "int", "mapsi"}
-var c17Nest = []string{"mapany", "sliceany", "struct", "ptr", "ptrptr", "mapstruct", "ptrmap", "ptrslice", "embed"}
+var c17Nest = []string{"mapany", "sliceany", "struct", "ptr", "ptrptr", "mapstruct", "ptrmap", "ptrslice", "embed", "clash"}
+
+// c17Clash: the JSON tag of one field is spelled like the Go name of a later field. A step
+// "Field" is the Go field Field (what x.Field reaches); "tag" reaches it through its tag.
+type c17Clash struct {
+	Display any `json:"Field"`
+	Field   any `json:"tag"`
+}
 
 // c17Outer embeds c17Path: Field and Tagged (json:"tag") are promoted fields
 type c17Outer struct {
@@ -334,6 +351,8 @@ func c17Build(desc string) any {
 			sl := []any{v, "second"}
 			pp := &sl
 			v = &pp
+		case "clash":
+			v = c17Clash{Display: "display", Field: v}
 		case "embed":
 			v = c17Outer{c17Path: c17Path{Field: v, Tagged: v}, Own: "o"}
 		case "mapstruct":
@@ -374,21 +393,24 @@ func refStep(cur any, step string) (any, bool, bool) {
 		}
 		return rv.Index(i).Interface(), true, true
 	case reflect.Struct:
-		// the fields Go itself lets a selector reach: own fields and the promoted fields of embedded structs
-		for _, f := range reflect.VisibleFields(rv.Type()) {
-			tag := strings.Split(f.Tag.Get("json"), ",")[0]
-			if f.Anonymous && f.Name != step {
-				continue
-			}
-			if f.Name == step || (tag != "" && tag == step) {
-				if !f.IsExported() {
-					return nil, false, true
+		// the fields Go itself lets a selector reach: own fields and the promoted fields of embedded
+		// structs. A Go field name wins over a JSON tag spelled the same way.
+		for pass := 0; pass < 2; pass++ {
+			for _, f := range reflect.VisibleFields(rv.Type()) {
+				tag := strings.Split(f.Tag.Get("json"), ",")[0]
+				if f.Anonymous && f.Name != step {
+					continue
 				}
-				fv, err := rv.FieldByIndexErr(f.Index)
-				if err != nil {
-					return nil, false, true
+				if (pass == 0 && f.Name == step) || (pass == 1 && tag != "" && tag == step) {
+					if !f.IsExported() {
+						return nil, false, true
+					}
+					fv, err := rv.FieldByIndexErr(f.Index)
+					if err != nil {
+						return nil, false, true
+					}
+					return fv.Interface(), true, true
 				}
-				return fv.Interface(), true, true
 			}
 		}
 		return nil, false, true
@@ -587,17 +609,17 @@ func init() {
 	core.Register(&core.Check{
 		ID:    "C17",
 		Level: "model_checking",
-		Rule: "history part: explicit-state search over all sequences of {Push(nil), Push({a}), Push({b,g}), Pop, Set a/b/F/g, Set(a, nil), Push({g: nil, F: nil}), Push(a map the caller keeps and pushes again), Copy, swap active stack} up to the bound, for root data nil / map / struct / *struct, replayed on a fresh Stack with a deterministic LIFO pool; after every operation Lookup, Resolve, GetString and EnvMap of 5 names (incl. a struct field name and a JSON tag) are compared with a list-of-maps reference model and the inactive copy must be unchanged. " +
-			"path part: every path of <=3 steps over 9 step names in 3 syntaxes into every nested value of depth <=3 over 11 container/leaf kinds, against ordinary Go indexing by reflection; GetString / GetInt / GetSlice / GetMap / ForEach on the same path agree with what Resolve returned. non-trivial = all",
-		Bounds:      map[string]string{"quick": "histories of <=5 operations; paths of <=3 steps into values nested <=3 deep", "thorough": "histories of <=7 operations; same paths"},
+		Rule: "history part: explicit-state search over all sequences of {Push(nil), Push({a}), Push({b,g}), Pop, Set a/b/F/g, Set(a, nil), Push({g: nil, F: nil}), Push(a map the caller keeps and pushes again), Copy, swap active stack} up to the bound, for root data nil / map / struct / *struct / typed map / struct with the fields promoted from an embedded struct, replayed on a fresh Stack with a deterministic LIFO pool; after every operation Lookup, Resolve, GetString and EnvMap of 5 names (incl. a struct field name and a JSON tag) are compared with a list-of-maps reference model and the inactive copy must be unchanged. " +
+			"path part: every path of <=3 steps over 9 step names in 3 syntaxes into every nested value of depth <=3 over 12 container/leaf kinds (incl. a struct whose JSON tag collides with a later field's Go name), against ordinary Go indexing by reflection; GetString / GetInt / GetSlice / GetMap / ForEach on the same path agree with what Resolve returned. non-trivial = all",
+		Bounds:      map[string]string{"quick": "histories of <=5 operations; paths of <=3 steps into values nested <=3 deep", "thorough": "histories of <=6 operations; same paths"},
 		Assumptions: []string{"Pop without a matching Push is unconstrained", "a present key whose value is nil and maps with non-string keys are unconstrained", "the Go name of a JSON-tagged root field is not queried in the history part (recorded finding of C08)"},
 		Decode:      core.DecodeAs[c17Case](),
 		Enumerate: func(tier string, emit func(core.Case)) {
 			depth := 5
 			if tier == "thorough" {
-				depth = 7
+				depth = 6
 			}
-			for _, root := range []string{"nil", "map", "struct", "ptr", "typedmap"} {
+			for _, root := range []string{"nil", "map", "struct", "ptr", "typedmap", "embedded"} {
 				for _, o1 := range c17Ops {
 					for _, o2 := range c17Ops {
 						emit(&c17Case{Part: "history", Root: root, Prefix: []string{o1, o2}, Depth: depth})
